@@ -1,5 +1,5 @@
 (* C19 property theorems: statements + `exact lemma` only. *)
-From CJ Require Import Common.Base C19.Model C19.Proofs.
+From CJ Require Import Common.Base C19.Model C19.Proofs C19.ModelConc C19.Conc.
 
 (* every block/allow-list entry of an accepted configuration is in its parsed policy *)
 Theorem C19_accepted_config_enforced :
@@ -61,3 +61,15 @@ Theorem C19_failed_reload_changes_nothing :
   forall m f s, cfg_loaded f = None -> on_reload m f s = Ok m.
 Proof. exact failed_reload_changes_nothing. Qed.
 Print Assumptions C19_failed_reload_changes_nothing.
+
+(* readers during a reload: for every initial configuration, every sequence of reloads, any number of
+   readers with any queries and EVERY schedule of the atomic steps (writer: Lock, one field assignment
+   at a time, Unlock; reader: RLock, decide, RUnlock), each decision is the decision of ONE configuration
+   in full -- the initial one or one that a reload installed.  The statement depends on every policy
+   field, the allowlist flag included, being assigned inside the lock (Examples.flag_outside_mixture). *)
+Theorem C19_reader_old_or_new_in_full :
+  forall p0 reloads progs sched,
+    Forall (fun o => let '(q, d, p, _) := o in In p (p0 :: reloads) /\ d = decide_p p q)
+           (cs_obs (prun false (pinit p0 reloads progs) sched)).
+Proof. exact reader_old_or_new_in_full. Qed.
+Print Assumptions C19_reader_old_or_new_in_full.
